@@ -19,21 +19,23 @@ THas == l <= Len(Trace)
 Others == UNCHANGED <<mprog, mlang, mtrace, gprog, gdone>>
 
 BriefP(p) == [kind |-> p.kind, subs |-> p.subs, og |-> p.og, rule |-> p.rule, col |-> p.col, a |-> p.a, w |-> p.w, lin |-> p.lin,
-              cap |-> p.cap, jk |-> p.jk, ml |-> p.ml, dash |-> p.dash, ph |-> p.ph, ko |-> p.ko, o |-> p.o, F |-> p.F]
+              cap |-> p.cap, jk |-> p.jk, ml |-> p.ml, dash |-> p.dash, ph |-> p.ph, ko |-> p.ko, o |-> p.o, onz |-> p.onz, ou |-> p.ou, ounz |-> p.ounz, F |-> p.F]
 BriefE(i) == IF i < 1 \/ i > Len(queue) THEN [kind |-> "none"]
              ELSE LET e == queue[i] IN [kind |-> e.kind, draw |-> e.draw, geom |-> e.geom, rule |-> e.rule, col |-> e.col, a |-> e.a, pen |-> e.pen,
                                         cap |-> e.cap, jk |-> e.jk, ml |-> e.ml, dash |-> e.dash, ph |-> e.ph, sim |-> e.sim, F |-> e.F]
 ErrCore == [pid |-> pid, be |-> be, why |-> Why, idx |-> FailIdx, exp |-> BriefE(FailIdx),
             got |-> [i \in 1..Len(painted) |-> BriefP(painted[i])], feats |-> Feats(FailIdx)]
 
-TStep == /\ mode = "run" /\ Interp(TEv) /\ l' = l + 1 /\ Others
-         /\ IF Conform' \/ Strict THEN mode' = "run" /\ nerr' = nerr
-            ELSE /\ PrintT("@@" \o ToJson([ev |-> l, op |-> TEv.op, e |-> ErrCore']))
-                 /\ mode' = "skip" /\ nerr' = nerr + 1
-TSkip == /\ mode = "skip" /\ l' = l + 1 /\ Others /\ nerr' = nerr
-         /\ IF TEv.op = "BEGIN" THEN Begin(TEv) /\ mode' = "run" ELSE UNCHANGED ivars /\ mode' = "skip"
+\* The property is judged on the state reached by the previous event (as an invariant is).
+Drop == IF TEv.op = "BEGIN" THEN Begin(TEv) /\ mode' = "run" ELSE UNCHANGED ivars /\ mode' = "skip"
+TStep == /\ mode = "run" /\ (Conform \/ Strict) /\ l' = l + 1 /\ Others /\ nerr' = nerr /\ mode' = "run"
+         /\ IF TEv.op = "EOF" THEN UNCHANGED ivars ELSE Interp(TEv)
+TReject == /\ mode = "run" /\ ~Conform /\ ~Strict /\ l' = l + 1 /\ Others /\ nerr' = nerr + 1
+           /\ PrintT("@@" \o ToJson([ev |-> l - 1, op |-> Trace[l - 1].op, e |-> ErrCore]))
+           /\ Drop
+TSkip == /\ mode = "skip" /\ l' = l + 1 /\ Others /\ nerr' = nerr /\ Drop
 TInit == IInit /\ l = 1 /\ Idle /\ mode = "run" /\ nerr = 0
-TNext == THas /\ (TStep \/ TSkip)
+TNext == THas /\ (TStep \/ TReject \/ TSkip)
 TSpec == TInit /\ [][TNext]_tvars
 \* in the diagnostic variant the state after a rejected event is not required to conform
 TConform == (mode = "run") => Conform
